@@ -78,6 +78,10 @@ def same_meta(S, ref, got, tag):
 
 
 def same_values(S, got, want, tag, tol=1e-9):
+    gu = got.unit if isinstance(got, u.Quantity) else None
+    wu = want.unit if isinstance(want, u.Quantity) else None
+    if gu != wu:
+        return [(tag + "unit", z3.BoolVal(True))]
     g = np.asarray(plain(got.value if isinstance(got, u.Quantity) else got), dtype=object)
     w = np.asarray(plain(want.value if isinstance(want, u.Quantity) else want), dtype=object)
     if g.shape != w.shape:
@@ -120,12 +124,14 @@ class Ufunc(Unit):
         w = S.real("w")
         S.assume(w > Fraction(1, 2))
         S.assume(w < 100)
-        return {"a": a, "b": b, "arr": arr, "w": w, "q": S.quantity(w, u.one), "qm": S.quantity(w, u.m)}
+        return {"a": a, "b": b, "arr": arr, "w": w, "q": S.quantity(w, u.one), "qm": S.quantity(w, u.m), "qp": S.quantity(w, u.percent)}
 
     def operands(self, a):
         A = self.arr
         return {"sig": (a["a"],), "sig-sig": (a["a"], a["b"]), "sig-arr": (a["a"], a["arr"]), "arr-sig": (a["arr"], a["b"]),
                 "sig-scalar": (a["a"], a["w"]), "scalar-sig": (a["w"], a["b"]), "sig-q": (a["a"], a["q"]), "q-sig": (a["qm"], a["b"]),
+                # (a Quantity whose unit carries a numeric scale: 50 % is 0.5)
+                "sig-qp": (a["a"], a["qp"]), "qp-sig": (a["qp"], a["b"]),
                 "out-sig": (a["a"], a["b"]), "out-arr": (a["a"], a["b"]), "inplace": (a["a"], a["b"]), "out-tuple": (a["a"], a["w"])}[A]
 
     def call(self, a):
@@ -277,6 +283,10 @@ def units(tier):
         for fn in ("multiply", "add", "true_divide"):
             us.append(Ufunc(cls, fn, "sig-q"))
         us.append(Ufunc(cls, "multiply", "q-sig"))
+        for fn in ("add", "subtract", "less"):
+            us.append(Ufunc(cls, fn, "sig-qp"))
+        us.append(Ufunc(cls, "greater", "qp-sig"))
+        us.append(Ufunc(cls, "add", "qp-sig"))
         for fn in ("add", "subtract", "multiply", "true_divide"):
             us.append(Ufunc(cls, fn, "inplace"))
             us.append(Ufunc(cls, fn, "out-sig"))
